@@ -321,3 +321,62 @@ def _series_to_numpy(interp, self, args, kwargs):
     if args or kwargs:
         raise Unsupported("to_numpy with arguments")
     return Opaque("column-values", (self.frame, self.column))
+
+
+# ---------------------------------------------------------------------------------------------
+# scipy.spatial.distance.cdist(A, B, metric): uninterpreted distance per (row of A, row of B), one function symbol per metric name
+# and dimension (ASSUMED: the entry depends on exactly the two rows and the metric); np.argmin(M, axis=0) for a one-column matrix
+# ---------------------------------------------------------------------------------------------
+CDIST = {}
+
+
+def cdist_fn(metric, d):
+    key = (metric, d)
+    if key not in CDIST:
+        CDIST[key] = z3.Function(f"cdist_{metric}_{d}", *([z3.RealSort()] * (2 * d) + [z3.RealSort()]))
+    return CDIST[key]
+
+
+@lib("scipy.spatial.distance.cdist")
+def _sp_cdist(interp, args, kwargs):
+    ctx = interp.ctx
+    A, B = args[0], args[1]
+    metric = kwargs.get("metric", args[2] if len(args) > 2 else Str(py="euclidean"))
+    if not (isinstance(metric, Str) and metric.py is not None):
+        raise Unsupported("cdist with a callable / symbolic metric")
+    if not isinstance(A, Mat) or conc(A.cols) is None:
+        raise Unsupported("cdist: first argument must be a matrix with a concrete number of columns")
+    d = conc(A.cols)
+    if isinstance(B, Vec) and getattr(B, "newaxis", None) == "row":
+        if conc(B.length) != d:
+            raise PyRaise("ValueError", "XA and XB must have the same number of columns")
+        brow = [as_real(to_num(vget(ctx, B, j))) for j in range(d)]
+        bfn, bcount = (lambda r, j: brow[j]), 1
+    elif isinstance(B, Mat) and conc(B.cols) == d:
+        src = B.buf.fn
+        bfn, bcount = (lambda r, j: as_real(to_num(src(r, j)))), B.rows
+    else:
+        raise Unsupported("cdist: second argument")
+    F = cdist_fn(metric.py, d)
+    asrc = A.buf.fn
+    out = Mat(A.rows, bcount, lambda i, r: Num(F(*([as_real(to_num(asrc(i, j))) for j in range(d)] + [bfn(r, j) for j in range(d)])), False), elem="real")
+    out.cdist_of = (metric.py, d)
+    return out
+
+
+_old_argmin = LIB["numpy.argmin"].impl
+
+
+def _np_argmin_axis0(interp, args, kwargs):
+    M = args[0]
+    ax = kwargs.get("axis", args[1] if len(args) > 1 else None)
+    if isinstance(M, Mat) and ax is not None and not isinstance(ax, NoneV) and conc(ax.z) == 0:
+        if conc(M.cols) != 1:
+            raise Unsupported("argmin(axis=0) of a matrix with more than one column")
+        col = Vec(M.rows, lambda i: M.buf.fn(i, 0), kind="ndarray", elem="real")
+        k = _old_argmin(interp, [col], {})
+        return Vec(1, kind="ndarray", elem="int", items=[k])
+    return _old_argmin(interp, args, kwargs)
+
+
+LIB["numpy.argmin"].impl = _np_argmin_axis0
